@@ -17,6 +17,15 @@ func Gen(t *rapid.T) *Case {
 			Panic:  rapid.SampledFrom([]string{"", "", "", "always", "odd"}).Draw(t, "panic"),
 		})
 	}
+	// one synchronous handler may cancel the publish context (placed anywhere, often last)
+	if nh > 0 && rapid.IntRange(0, 2).Draw(t, "canceller") == 0 {
+		k := nh - 1
+		if rapid.Bool().Draw(t, "cancelAnywhere") {
+			k = rapid.IntRange(0, nh-1).Draw(t, "cancelAt")
+		}
+		c.Handlers[k].Async = false
+		c.Handlers[k].Cancels = true
+	}
 	np := rapid.IntRange(1, 8).Draw(t, "np")
 	for i := 0; i < np; i++ {
 		p := Pub{Persist: rapid.SampledFrom([]string{"ok", "ok", "ok", "reject", "bad"}).Draw(t, "persist")}
